@@ -331,92 +331,116 @@ Proof.
 Qed.
 
 (* the signed request of the harness corpus: same octets as the implementation
-   produces (MAC 2ef1939c...), and the honest server accepts and restores *)
+   produces (MAC 2ef1939c...), the honest server accepts inside the window and
+   restores the octets, and answers BADTIME one second outside *)
 Example ex_request_signs_and_verifies :
   exists c w, client_request hmac_of (ex_key 32 32) ex_msg ex_t 300 = Ok (c, w) /\
     firstn 4 (skipn (length w - 38) w) = [46; 241; 147; 156] /\
     (exists out, server_request hmac_of (ex_key 16 32) w (ex_t + 300) = Ok (SrvOk c out) /\ firstn (length ex_msg) out = ex_msg) /\
     server_request hmac_of (ex_key 16 32) w (ex_t + 301) = Ok (SrvBadTime c (Vars ex_t 300 RC_BADTIME (Some (ex_t + 301)))).
-Proof. vm_compute. do 2 eexists. repeat split; try reflexivity. eexists. split; reflexivity. Qed.
-
-(* ------------------------------------------------------------ refuted statements *)
-(* (1) RFC 8945 5.2.3: a MAC that does not verify is answered with BADSIG.
-       The server reports FORMERR (T1: server_code_badsig). *)
-Definition flip_at (w : bytes) (i : nat) : bytes := firstn i w ++ N.lxor (nth i w 0) 1 :: skipn (S i) w.
-
-Lemma server_badsig_refuted :
-  exists k w w' now c, client_request hmac_of k ex_msg ex_t 300 = Ok (c, w) /\
-    w' = flip_at w 14 /\
-    server_request hmac_of k w' now = Err (SE_UNSIGNED + RC_FORMERR) /\
-    server_request hmac_of k w' now <> Err (SE_UNSIGNED + RC_BADSIG).
 Proof.
-  exists (ex_key 32 32). eexists. eexists. exists ex_t. eexists.
-  split; [vm_compute; reflexivity|]. split; [reflexivity|].
-  split; [vm_compute; reflexivity | vm_compute; discriminate].
+  eexists. eexists. split. { vm_compute. reflexivity. }
+  split. { vm_compute. reflexivity. }
+  split. { eexists. split; vm_compute; reflexivity. }
+  vm_compute. reflexivity.
 Qed.
 
-(* what does hold: a MAC mismatch is always refused, with the code T1 reads from the source *)
-Lemma server_mac_mismatch_code mac k w now t sm a :
+(* ------------------------------------------------------------ the three repaired defects *)
+(* History: at the pinned commit (1) a MAC mismatch was answered FORMERR, (2) a
+   TSIG RR with CLASS <> ANY or TTL <> 0 verified, (3) ServerSequence digested
+   the untruncated prior MAC.  All three were found by this check's oracle,
+   refuted in this model, and are repaired in /repo (fix: commits b40daa9,
+   9915138, 1bd6c1f).  T1 reads the repaired shape; the statements below are
+   the positive versions. *)
+Definition flip_at (w : bytes) (i : nat) : bytes := firstn i w ++ N.lxor (nth i w 0) 1 :: skipn (S i) w.
+
+Lemma server_code_badsig_is_badsig : server_code_badsig = RC_BADSIG /\ server_code_badtrunc = RC_BADTRUNC.
+Proof. split; reflexivity. Qed.
+
+(* (1) RFC 8945 5.2.3: a MAC of acceptable length that does not verify is answered BADSIG *)
+Lemma server_mac_mismatch_badsig mac k w now t sm a :
   from_message w = Ok t -> alg_from_name (mt_algname t) = Some a -> store_get k (mt_owner t) a = true ->
   stripped w t = Ok sm -> k_min k <= len (mt_mac t) ->
   compare_signatures k (ctx_sign mac k (digest_full k [] sm (mt_vars t))) (mt_mac t) <> Ok tt ->
-  server_request mac k w now = Err (SE_UNSIGNED + server_code_badsig).
+  server_request mac k w now = Err (SE_UNSIGNED + RC_BADSIG).
 Proof.
   intros Hf Ha Hs Hst Hmin Hc. unfold server_request. rewrite Hf, Ha, Hs. cbn [negb]. rewrite Hst. cbn [bind].
   destruct (compare_signatures _ _ _) as [[]|e| |] eqn:E.
   - congruence.
   - apply compare_signatures_err in E. destruct E as [[-> Hl]|[-> _]]; [lia|]. reflexivity.
-  - unfold compare_signatures in E. destruct (_ <? _); [discriminate|]. destruct (bytes_eqb _ _); discriminate.
-  - unfold compare_signatures in E. destruct (_ <? _); [discriminate|]. destruct (bytes_eqb _ _); discriminate.
+  - unfold compare_signatures in E. cbn zeta in E. destruct (_ <? _); [discriminate|]. destruct (bytes_eqb _ _); discriminate.
+  - unfold compare_signatures in E. cbn zeta in E. destruct (_ <? _); [discriminate|]. destruct (bytes_eqb _ _); discriminate.
 Qed.
 
-(* (2) a TSIG RR whose CLASS is not ANY verifies (RFC 8945 4.2 / 4.3.3: CLASS and
-       TTL are digested; the code digests constants and never looks at the record's) *)
-Lemma tsig_class_unchecked_refuted :
-  exists k w w' c out, client_request hmac_of k ex_msg ex_t 300 = Ok (c, w) /\
-    w' = flip_at w (length ex_msg + 13 + 3) /\ w' <> w /\
-    server_request hmac_of k w' ex_t = Ok (SrvOk c out).
+(* ... and a MAC shorter than min_mac_len is answered BADTRUNC *)
+Lemma server_short_mac_badtrunc mac k w now t sm a :
+  from_message w = Ok t -> alg_from_name (mt_algname t) = Some a -> store_get k (mt_owner t) a = true ->
+  stripped w t = Ok sm -> len (mt_mac t) < k_min k ->
+  server_request mac k w now = Err (SE_UNSIGNED + RC_BADTRUNC).
 Proof.
-  exists (ex_key 32 32). do 4 eexists.
-  split; [vm_compute; reflexivity|]. split; [reflexivity|].
-  split; [vm_compute; discriminate | vm_compute; reflexivity].
+  intros Hf Ha Hs Hst Hmin. unfold server_request. rewrite Hf, Ha, Hs. cbn [negb]. rewrite Hst. cbn [bind].
+  unfold compare_signatures. destruct (N.ltb_spec (len (mt_mac t)) (k_min k)); [reflexivity | lia].
 Qed.
 
-(* (3) a ServerSequence whose key truncates MACs feeds the untruncated MAC into
-       the next digest while the client (and RFC 8945 4.3.1: "in wire format")
-       uses the MAC as sent: the second message of an honest sequence is refused *)
+Example server_badsig_ex :
+  exists c w, client_request hmac_of (ex_key 32 32) ex_msg ex_t 300 = Ok (c, w) /\
+    server_request hmac_of (ex_key 32 32) (flip_at w 14) ex_t = Err (SE_UNSIGNED + RC_BADSIG).
+Proof. eexists. eexists. split. { vm_compute. reflexivity. } vm_compute. reflexivity. Qed.
+
+(* (2) a TSIG record whose CLASS is not ANY or whose TTL is not 0 is never located *)
+Lemma tsig_class_ttl_enforced fuel m pos lim count h :
+  count <> 0 -> record_parse m pos lim = Ok h -> rh_type h = RTYPE_TSIG ->
+  (rh_class h <> CLASS_ANY \/ rh_ttl h <> 0) ->
+  forall t, find_tsig (S fuel) m pos lim count <> Ok t.
+Proof.
+  intros Hc Hp Ht Hbad t. cbn [find_tsig]. destruct (N.eqb_spec count 0); [contradiction|].
+  rewrite Hp. cbn [to_err bind]. rewrite Ht, N.eqb_refl.
+  destruct (tsig_parse m h pos); cbn [to_err bind]; try discriminate.
+  replace tsig_class_ttl_checked with true by reflexivity. cbn [andb].
+  destruct (N.eqb_spec (rh_class h) CLASS_ANY), (N.eqb_spec (rh_ttl h) 0); cbn [negb orb]; try discriminate.
+  destruct Hbad; contradiction.
+Qed.
+
+Example tsig_class_ex :
+  exists c w, client_request hmac_of (ex_key 32 32) ex_msg ex_t 300 = Ok (c, w) /\
+    server_request hmac_of (ex_key 32 32) (flip_at w (length ex_msg + 13 + 3)) ex_t = Err (SE_UNSIGNED + RC_FORMERR) /\
+    server_request hmac_of (ex_key 32 32) (flip_at w (length ex_msg + 13 + 7)) ex_t = Err (SE_UNSIGNED + RC_FORMERR).
+Proof. eexists. eexists. split. { vm_compute. reflexivity. } split. { vm_compute. reflexivity. } vm_compute. reflexivity. Qed.
+
+(* (3) the context of a ServerSequence holds the MAC as sent (truncated), which
+       is what the client applies (mt_mac of the received record) *)
+Lemma server_seq_context_is_sent_mac mac k c first msg now fudge c' w :
+  server_seq_answer mac k c first msg now fudge = Ok (c', w) ->
+  exists full, full = ctx_sign mac k (if first then digest_full k c msg (Vars now fudge RC_NOERROR None)
+                                      else digest_timers k c msg (Vars now fudge RC_NOERROR None)) /\
+    c' = apply_signature [] (signature_slice k full) /\
+    push_tsig k (Vars now fudge RC_NOERROR None) (signature_slice k full) msg = Ok w.
+Proof.
+  intros H. unfold server_seq_answer in H. cbn zeta in H.
+  replace server_seq_applies_full_mac with false in H by reflexivity.
+  destruct first; (destruct (push_tsig _ _ _ msg) as [x| | |] eqn:E; try discriminate;
+    cbn in H; injection H as <- <-; eexists; split; [reflexivity|]; split; [reflexivity | exact E]).
+Qed.
+
 Definition ex_answer (n : N) : bytes :=
   [18;52; 132;0; 0;1; 0;1; 0;0; 0;0; 3;119;119;119; 7;101;120;97;109;112;108;101; 3;99;111;109; 0; 0;1; 0;1;
    192;12; 0;1; 0;1; 0;0;0;60; 0;4; 10;0;0;n].
 
-Lemma sequence_truncated_refuted :
-  exists k c0 w c1 w1 c2 w2 s1,
-    client_request hmac_of k ex_msg ex_t 300 = Ok (c0, w) /\
-    server_seq_answer hmac_of k c0 true (ex_answer 1) ex_t 300 = Ok (c1, w1) /\
-    server_seq_answer hmac_of k c1 false (ex_answer 2) ex_t 300 = Ok (c2, w2) /\
-    cseq_answer hmac_of k (CSeq c0 true 0) w1 ex_t = (s1, Ok (set_arcount w1 0)) /\
-    snd (cseq_answer hmac_of k s1 w2 ex_t) = Err VE_BADSIG.
+(* a three message sequence signed with MACs truncated to 16 octets verifies *)
+Example sequence_truncated_ex :
+  exists c0 w c1 w1 c2 w2 s1 s2,
+    client_request hmac_of (ex_key 16 16) ex_msg ex_t 300 = Ok (c0, w) /\
+    server_seq_answer hmac_of (ex_key 16 16) c0 true (ex_answer 1) ex_t 300 = Ok (c1, w1) /\
+    server_seq_answer hmac_of (ex_key 16 16) c1 false (ex_answer 2) ex_t 300 = Ok (c2, w2) /\
+    cseq_answer hmac_of (ex_key 16 16) (CSeq c0 true 0) w1 ex_t = (s1, Ok (ex_answer 1 ++ skipn (length (ex_answer 1)) w1)) /\
+    cseq_answer hmac_of (ex_key 16 16) s1 w2 ex_t = (s2, Ok (ex_answer 2 ++ skipn (length (ex_answer 2)) w2)) /\
+    cseq_done s2 = Ok tt.
 Proof.
-  exists (ex_key 16 16). do 7 eexists.
-  split; [vm_compute; reflexivity|]. split; [vm_compute; reflexivity|]. split; [vm_compute; reflexivity|].
-  split; vm_compute; reflexivity.
-Qed.
-
-(* without truncation (signing_len = native length) the two contexts agree *)
-Lemma server_seq_context_untruncated mac k c first msg now fudge c' w :
-  (forall a s d, len (mac a s d) = native_len a) ->
-  k_sign k = native_len (k_alg k) ->
-  server_seq_answer mac k c first msg now fudge = Ok (c', w) ->
-  exists m, c' = apply_signature [] m /\ m = signature_slice k m /\
-    w = match push_tsig k (Vars now fudge RC_NOERROR None) m msg with Ok x => x | _ => w end.
-Proof.
-  intros Hl Hs H. unfold server_seq_answer in H. cbn zeta in H.
-  set (full := if first then _ else _) in H.
-  assert (Hfull : signature_slice k full = full).
-  { unfold signature_slice, take. apply firstn_all2. rewrite Hs.
-    assert (len full = native_len (k_alg k)) by (unfold full, ctx_sign; destruct first; apply Hl).
-    unfold len in *. lia. }
-  rewrite Hfull in H. destruct (push_tsig _ _ full msg) as [x| | |] eqn:E; try discriminate.
-  cbn in H. injection H as <- <-. exists full. rewrite Hfull, E.
-  destruct server_seq_applies_full_mac; auto.
+  do 8 eexists.
+  split. { vm_compute. reflexivity. }
+  split. { vm_compute. reflexivity. }
+  split. { vm_compute. reflexivity. }
+  split. { vm_compute. reflexivity. }
+  split. { vm_compute. reflexivity. }
+  vm_compute. reflexivity.
 Qed.
